@@ -32,7 +32,7 @@ REQUIRED = {'ranges_single_source': {'quick': 20000, 'thorough': 400000},
             'ranges_two_sources': {'quick': 2000, 'thorough': 40000},
             'texts_compared': {'quick': 3000, 'thorough': 60000},
             'small_scope_ranges': {'quick': 20000, 'thorough': 20000},
-            'insitu_map_backs': {'quick': 500, 'thorough': 5000}}
+            'insitu_map_backs': {'quick': 300, 'thorough': 3000}}
 SHARD_TIMEOUT = {'quick': 240, 'thorough': 1500}
 
 ALPHA = ['a', 'b', 'c', '$', '.', ' ', '\n', '_', 'x', 'é', '\U0001F600', '(', ')']
@@ -267,7 +267,7 @@ def boundaries(prov):
 def plan(tier, seed):
   if tier == 'quick':
     shards = [{'kind': 'small', 'max_patches': 3}] + [{'kind': 'random', 'rseed': seed * 100003 + i, 'n': 700} for i in range(8)]
-    shards += [{'kind': 'insitu', 'hseed': seed * 100003 + 500 + i, 'steps': 40} for i in range(4)]
+    shards += [{'kind': 'insitu', 'hseed': seed * 100003 + 500 + i, 'steps': 45} for i in range(6)]
   else:
     shards = [{'kind': 'small'}] + [{'kind': 'random', 'rseed': seed * 100003 + i, 'n': 4000} for i in range(24)]
     shards += [{'kind': 'insitu', 'hseed': seed * 100003 + 500 + i, 'steps': 70} for i in range(16)]
